@@ -293,6 +293,10 @@ func runC03(c *Ctx, r *Report) {
 	// (slot stores and fresh definitions: the C13 rules for the 16 definition slots)
 	c13Slots(c, r)
 	c13Fresh(c, r)
+	// the rejection of a file type reaches the caller: the NotSupportedError (manufacturer-specific and
+	// unsupported types) is returned on every path of every function that calls a carrier of it
+	errorTypePropagates(c, r, "C03-4-reject-propagates", "NotSupportedError", 1, 2,
+		"which rejects file types the library has no container for", "the rejection of a file type", "a file of a rejected type is accepted by %s")
 
 	_ = info
 	r.need("containers", len(conts), 17)
